@@ -7,6 +7,7 @@
  "replace_calls": {"directive": "rec_directive"},
  "unwind": 6,
  "variants": {"src": ["-DV_CTX=0"], "ctx": ["-DV_CTX=1"]},
+ "tiers": {"thorough": {"cflags": ["-DNS=7"], "unwind": 8, "timeout": 1800, "bound": "as quick with up to 7 source tokens"}},
  "kind": "bounded",
  "bound": "src: the context stack is empty and the source continues with at most 5 tokens drawn from {identifier, new-line, #, '('}; ctx: one context frame with 1..2 pending tokens (identifier, number, '(' or ')')",
  "timeout": 300, "replay": false,
@@ -26,7 +27,9 @@
 #include "verif.h"
 
 struct token tok;
+#ifndef NS
 #define NS 5
+#endif
 static enum tokenkind s_kind[NS + 1]; static unsigned s_pos;
 static int g_ndir;
 static bool s_prime;
@@ -72,6 +75,9 @@ harness(void)
 		int k[NS]; unsigned i, nxt = NS; bool linestart = false, indir = false, seen = false;
 		unsigned keep[NS + 1], nkeep = 0;     /* indices of the tokens looked at that are not part of a directive */
 		k[0] = in_k0; k[1] = in_k1; k[2] = in_k2; k[3] = in_k3; k[4] = in_k4;
+#if NS > 5
+		{ IN(int, in_k5); IN(int, in_k6); k[5] = in_k5; k[6] = in_k6; }
+#endif
 		for (i = 0; i < NS; i++) {
 			__CPROVER_assume(k[i] == TIDENT || k[i] == TNEWLINE || k[i] == THASH || k[i] == TLPAREN);
 			s_kind[i] = k[i];
